@@ -32,7 +32,8 @@ def run(pid, verif, repo):
                                stderr=subprocess.STDOUT, text=True, timeout=3600)
             got = {0: 'ok', 1: 'violation'}.get(q.returncode, 'undecided')
             lines = [l for l in q.stdout.splitlines() if l.startswith(('VIOLATION', 'failed obligation', 'UNDECIDED', 'OK '))][:3]
-            res.append({'mutation': m['name'], 'expect': m['expect'], 'outcome': got, 'as_expected': got == m['expect'],
+            okay = (got == m['expect']) or (m['expect'] == 'no-alarm' and got in ('ok', 'undecided'))
+            res.append({'mutation': m['name'], 'expect': m['expect'], 'outcome': got, 'as_expected': okay,
                         'wall_s': round(time.time() - t0, 1), 'first_lines': [l[:200] for l in lines]})
         finally:
             shutil.rmtree(scratch, ignore_errors=True)
